@@ -78,6 +78,7 @@ type seqDriver struct {
 	blocked  []*arrival       // per shard: handler call waiting at the gate
 	closed   map[uint64]bool  // sessions the model should regard as closed
 	drainSet bool             // admission closed by a DrainSends call
+	lastDrainOK bool
 	seqNo    []uint64
 }
 
@@ -273,7 +274,7 @@ func (d *seqDriver) drainOp() {
 	d.ev("EDrain 0%%nat false")
 	d.ev("EDrain 0%%nat false")
 	if d.outstanding() == 0 {
-		d.st.drain(0)
+		d.lastDrainOK = d.st.drain(0)
 		d.ev("EWaiter")
 		d.ev("EDrain 0%%nat false")
 	} else {
@@ -346,7 +347,7 @@ func runSeq(in input) vh.Result {
 		d.release(bs[0], false)
 	}
 	d.drainOp()
-	closed, final := st.finish(false)
+	closed, final, _ := st.finish(false)
 	queued, shq, _ := st.srv.VerifC28Depths()
 	cfg, _ := st.cfgTerm()
 	hist := st.histTerm(closed)
@@ -374,7 +375,7 @@ func runSeq(in input) vh.Result {
 		mode = "batch"
 	}
 	return vh.Result{
-		Coq: vh.App("C28Case", vh.App("KSeq", cfg, vh.List(d.evs), vh.B(final), hist, vh.N(uint64(queued)), vh.NList(shqN))),
+		Coq: vh.App("C28Case", vh.App("KSeq", cfg, vh.List(d.evs), vh.B(final), vh.B(d.lastDrainOK), hist, vh.N(uint64(queued)), vh.NList(shqN))),
 		Obs: map[string]any{"sends": len(st.rec.sends), "accepted": nAcc, "rejected": nRej, "batches": len(st.rec.batches),
 			"events": len(d.evs), "closed": closed},
 		Class:   fmt.Sprintf("seq,%s,shards=%s,reject=%v,multi=%v,herr=%v,middrain=%v", mode, bucket(shards), nRej > 0, multi, fails > 0, len(st.rec.drains) > 1),
